@@ -8,6 +8,7 @@
 //!   daf ...               same, but the compression decision is not observable through the public
 //!                         API on this window (both readers behave identically): obs = Ok:<F>:~
 //!   dv / dvf              the variant twins
+//!   hz seed               (not modelled) the theorems' oracle premises on the real BGZF writer / flate2 decoder
 //! Implementation-only oracles (the property itself, public generic builders only):
 //!   art fmt seed nrec hdr rdr      write through alignment::io::writer::Builder, read back through
 //!                                  alignment::io::reader::Builder::default() (autodetect) over reader `rdr`
@@ -34,7 +35,7 @@ fn generate(rng: &mut Rng, tier: &str, w: &mut CaseWriter) {
 
 fn run(c: &Case) -> Obs {
     match c.kind.as_str() {
-        "da" | "daf" | "dv" | "dvf" => detect::run(c),
+        "da" | "daf" | "dv" | "dvf" | "hz" => detect::run(c),
         "art" | "atx" | "acv" | "aas" => align::run(c),
         "vrt" | "vcv" | "vas" => variant::run(c),
         _ => Obs::fail("-", "harness-unknown-kind", &c.kind),
